@@ -668,7 +668,7 @@ def copy_case(rng, rname, route, s, keys, lead):
     e2 = (f"copy_dict_unaffected={b01([(k, id(v)) for k, v in cmd.items()] == snap_items and cmd.get('spin_weight') == s)} "
           f"copy_buf_unaffected={b01(np.array_equal(c.view(np.ndarray), snap_data))} "
           f"copy_val_unaffected={b01((list(cfirst) == snap_val) if ckeys else True)}")
-    line = f"grid copy {rname} {s} {ex(keys)}"
+    line = f"grid copy {rname} {s} {ex(keys)} lead={sh(lead)}"
     return line, f"{head} {e1} {e2}", rname.split(":")[0]
 
 
